@@ -9,22 +9,22 @@ SETUP = ("/venv/bin/python -c 'import hypothesis' 2>/dev/null || /venv/bin/pip i
 
 # id -> (technique, level text, level note, design ref)
 CHECKS = {
-    'C01': ('Hypothesis-generated hostile values (edits of valid numbers, decorated numbers, long/Unicode text, non-strings) x option table x frozen clock; exception-class and is_valid<=>validate oracle; collect-then-shrink bucketing by (module, exception, frame)',
+    'C01': ('Hypothesis-generated hostile values (edits of valid numbers, decorated numbers, long/Unicode text, non-strings) x option table x frozen clock; exception-class and is_valid<=>validate oracle; collect-then-shrink bucketing by (module, exception, frame); systematic position x suspicious-character sweeps (incl. leap-day numbers); coverage-guided atheris/libFuzzer campaign (16 shards) whose reported cases are decided by the same property function',
             'Structured random search over all 234 modules against the stated error contract; finds violations, does not prove absence.',
             'Options are well-typed; objects whose own dunder methods raise are outside the domain; clock frozen by a datetime shim inside stdnum modules.', '3/C01'),
-    'C02': ('metamorphic idempotence: validate(validate(x))==validate(x) and no surrounding whitespace, over module-probed presentations and hostile edits of valid numbers x options x clock',
+    'C02': ('metamorphic idempotence: validate(validate(x))==validate(x) and no surrounding whitespace, over module-probed presentations and hostile edits of valid numbers x options x clock; separator insertion/replacement sweep; coverage-guided atheris/libFuzzer campaign with the fixed-point oracle in the target',
             'Property-based search per module; only accepted inputs are in the domain (acceptance rate reported).', 'Same options and frozen date for both calls.', '3/C02'),
     'C03': ('metamorphic relation over pairs (x, decorate(x)) with equal compact(): equal validate() outcome; x valid / near-miss / garbage',
             'Property-based search per module with compact(); pair discard rate and accept/reject split are measured.', 'Two rejections are equal whatever the ValidationError subclass; non-ValidationError crashes are left to C01.', '3/C03'),
     'C04': ('round trip validate(format(x)) == N(validate(x)) with a documented-normalisation table, and format(x)==format(validate(x)), over presentations x format options',
             'Property-based search over the 119 modules with format().', 'Clause 2 only for separators the module own compact() removes; meid clause 3 only with format= and add_check_digit.', '3/C04'),
-    'C05': ('hand-written generator convention table (102 rows); generator/validator agreement, exhaustive alternatives at each check position, completion of mutated payloads',
+    'C05': ('hand-written generator convention table (102 rows); generator/validator agreement, exhaustive alternatives at each check position, completion of mutated payloads (also zero-stripped payloads of accepted shorter spellings)',
             'Property-based search plus exhaustive neighbourhood at the check positions of every generated number.', 'Conventions transcribed from each validate(); ambiguous multi-scheme modules excluded from clause (b).', '3/C05'),
     'C06': ('exhaustive enumeration of all payloads up to length L per (algorithm, alphabet) plus Hypothesis long payloads; algebraic laws (unique check, single substitution, adjacent swap, Luhn 0/9 blind spot both directions)',
             'Finite short spaces enumerated completely; long strings sampled; fold-state transition coverage counted.', '"Every length" is not proved by induction.', '3/C06'),
     'C07': ('differential testing against 19 independently written reference validators; exhaustive sweeps of ISSN/IMO/EAN-8/CAS payload spaces; constructed IBAN/Bitcoin/ISO11649/LEI inputs; single-edit neighbourhoods',
             'Differential search; thorough tier sweeps the four small payload spaces completely.', 'References share the clean-up table, ISIN/ISRC country lists and iban.dat/be banks registry with the library, as the statement allows.', '3/C07'),
-    'C08': ('relation table of 36 conversions: target validity, identity embedding, inverse, presentation independence over generated valid numbers x presentations x options',
+    'C08': ('relation table of 36 conversions: target validity, identity embedding, inverse, presentation independence over generated valid numbers x presentations x options; power-of-radix boundary values; differential against a frozen layout table for de.stnr',
             'Property-based round-trip search per conversion.', 'Presentations limited to the statement variants (compact, space/hyphen/dot separated, module format(), lower case).', '3/C08'),
     'C09': ('differential between wrapper and constituents computed from hand-written dispatch tables (EU VAT 31 prefixes, 77 vatin aliases, unions, IBAN national, thin wrappers, guess_*)',
             'Property-based differential search over valid constituents, neighbours and prefix variants for every country.', 'Dispatch tables transcribed by hand; crashes are C01 matters.', '3/C09'),
@@ -33,18 +33,18 @@ CHECKS = {
     'C11': ('exhaustive enumeration of every registry line: strict grammar, reachability witnesses, consumer witnesses per registry',
             'Complete enumeration of a finite domain (about 46,000 lines, 98,000 witnesses).', 'Witness construction rules per registry are hand-written; 37 data defects are listed as known findings.', '3/C11'),
     'C12': ('validity predicate over 95 (module, getter) pairs: totality, kind, date/digit agreement from a frozen layout table, split() join',
-            'Property-based search over valid numbers x getter options x frozen clock.', 'Century not re-derived; getters may raise ValidationError.', '3/C12'),
-    'C13': ('stateful model-based testing: Hypothesis RuleBasedStateMachine in fresh worker processes with mutation of returned containers against a fresh-interpreter-per-call oracle; delta-debugged traces; multi-thread stress trials with concurrent first use',
-            'History/aliasing: model-based search. Threads: stress only (the harness does not own the schedule).', 'Same PYTHONHASHSEED and frozen clock in all processes; modules named in thread call lists are imported before the threads start.', '3/C13'),
+            'Property-based search over valid numbers x getter options x frozen clock.', 'Century compared for 13 formats from frozen per-format rules; getters may raise ValidationError.', '3/C12'),
+    'C13': ('stateful model-based testing: Hypothesis RuleBasedStateMachine in fresh worker processes with mutation of returned containers against a fresh-interpreter-per-call oracle; delta-debugged traces; multi-thread stress trials with concurrent first use; in-process repetition of every call; fresh interpreters differing only in PYTHONHASHSEED',
+            'History/aliasing: model-based search. Threads: stress only (the harness does not own the schedule).', 'Same PYTHONHASHSEED (0) and frozen clock in all processes except in the hash-seed part; modules named in thread call lists are imported before the threads start.', '3/C13'),
     'C14': ('exhaustive enumeration of all 1,114,112 code points against the Unicode database; generated strings x deletechars against a character-wise reference; look-alike respelling of valid numbers (metamorphic)',
             'Part (a) is exhaustive; parts (b),(c) are property-based.', 'unicodedata of the interpreter is the oracle; generic algorithm modules excluded from respelling.', '3/C14'),
     'C15': ('targeted substitution fuzz: every position of valid numbers x foreign digits (same value and different), homoglyph/accented/full-width/case-expanding letters, combining marks; isascii() oracle',
             'Enumerated substitutions per number plus Hypothesis hostile edits.', 'Exempt modules may return only their documented national letters.', '3/C15'),
     'C16': ('round trips over an independent GS1 format-grammar value model: info(validate(s))==info(s), validate fixed point, info(encode(d))==d, with/without separator and parentheses; AI-level minimisation of failures',
             'Property-based search; every registered AI is exercised (checked).', 'Values avoid separator and parentheses; decimals/dates per the stated ranges.', '3/C16'),
-    'C17': ('exhaustive single-substitution / adjacent-transposition neighbourhood of every generated valid number for 30 listed modules',
+    'C17': ('exhaustive single-substitution / adjacent-transposition neighbourhood of every generated valid number for 36 listed modules (6 of them on the positions their Luhn check covers), pair sweep of the last payload characters, documented prefixed spellings',
             'Neighbourhood of each number enumerated completely; numbers from corpus + synthesis.', 'Module list fixed by reading each validator.', '3/C17'),
-    'C18': ('grammar-based request fuzzing of the WSGI app with an exact-module-set oracle, HTML parser round trip of the input value, sentinel escape contexts, and request histories compared with a fresh instance',
+    'C18': ('grammar-based request fuzzing of the WSGI app with an exact-module-set oracle, HTML parser round trip of the input value, sentinel escape contexts, and request histories compared with a fresh instance; two-stage generation (per-module is_valid pre-filter over suspicious-character sweeps, then the request)',
             'Property-based search over query strings, headers and request sequences.', 'parse_qs defines the submitted number; fresh instance = WSGI file re-executed in the same process.', '3/C18'),
 }
 
